@@ -50,39 +50,70 @@ def scenario(k, cmds, order_seed):
         return out
     return fn
 
+def measure(net, rng, primary, nodes, cmds, dead, label):
+    """every command on every node of `nodes`; the burst of each is split into forwards to the primary, copies from it, lateral messages and acks"""
+    fails = []
+    for node in nodes:
+        for cmd in cmds:
+            t0 = len(net.trace)
+            net.cmd(node, 1, cmd)
+            ok = net.settle(rng, budget=200)
+            burst = [b for b in net.trace[t0:] if not ({b[1], b[2]} & set(dead))]
+            role = "new-primary" if node == primary else "secondary"
+            if not ok:
+                return [Failure(f"self-sustaining-exchange-after-{label}:{cmd.split(' ')[0]}@{role}", f"{cmd!r} on n{node}: still exchanging messages after 200 deliveries; last {burst[-6:]}")]
+            fwd = [b for b in burst if b[0] == "fwd"]
+            forwards = [b for b in fwd if b[1] != primary and b[2] == primary]; copies = [b for b in fwd if b[1] == primary]; lateral = [b for b in fwd if b[1] != primary and b[2] != primary]
+            acks = [b for b in burst if b[0] == "back" and b[3].startswith("ack ")]
+            per_sec = max([len([c for c in copies if c[2] == t]) for t in {c[2] for c in copies}] or [0])
+            where = f"{cmd!r} on n{node} ({role}) after the {label}: forwards={len(forwards)} copies={len(copies)} acks={len(acks)} lateral={len(lateral)}; burst {burst}"
+            if lateral: fails.append(Failure(f"secondary-fans-out:{cmd.split(' ')[0]}@{role}", where))
+            if len(forwards) > 1: fails.append(Failure(f"more-than-one-forward:{cmd.split(' ')[0]}@{role}", where))
+            if per_sec > 1: fails.append(Failure(f"more-than-one-copy-per-secondary:{cmd.split(' ')[0]}@{'primary' if node == primary else 'secondary'}", where))
+            if len(acks) > len(copies): fails.append(Failure(f"more-acks-than-copies:{cmd.split(' ')[0]}@{role}", where))
+    seen = set(); out = []
+    for f in fails:
+        if f.cls not in seen: seen.add(f.cls); out.append(f)
+    return out
+
 def scenario_failover(cmds):
     """3 nodes, the primary dies, the next-oldest node is elected (real elections as coroutines), then every command on both survivors"""
     def fn(net, rng):
-        fails = []
         if not cluster.form_cluster(net, 3, rng, co=True): return [Failure("cluster-does-not-form", "3 nodes, coroutine mode")]
         net.op(1, "SESS 1"); net.cmd(1, 1, "auth adm pw"); net.cmd(1, 1, "create-db t tok")
         if not net.settle(rng): return [Failure("no-quiescence", "setup")]
         for i in (2, 3): net.op(i, "SESS 1"); net.cmd(i, 1, "auth adm pw"); net.cmd(i, 1, "use-db t tok")
         if not net.settle(rng): return [Failure("no-quiescence", "setup")]
+        net.kill(1)
         for j in (2, 3): net.disconnect(1, j)
-        net.parked = [x for x in net.parked if x[0] != 1]
         if not net.settle(rng): return [Failure("election-does-not-terminate:primary-dies", f"parked {net.parked}")]
-        for node in (2, 3):
-            for cmd in cmds:
-                t0 = len(net.trace)
-                net.cmd(node, 1, cmd)
-                ok = net.settle(rng, budget=200)
-                burst = [b for b in net.trace[t0:] if 1 not in (b[1], b[2])]
-                role = "new-primary" if node == 2 else "secondary"
-                if not ok:
-                    return [Failure(f"self-sustaining-exchange-after-failover:{cmd.split(' ')[0]}@{role}", f"{cmd!r} on n{node}: still exchanging messages after 200 deliveries; last {burst[-6:]}")]
-                fwd = [b for b in burst if b[0] == "fwd"]
-                forwards = [b for b in fwd if b[1] != 2 and b[2] == 2]; copies = [b for b in fwd if b[1] == 2]; lateral = [b for b in fwd if b[1] != 2 and b[2] != 2]
-                acks = [b for b in burst if b[0] == "back" and b[3].startswith("ack ")]
-                where = f"{cmd!r} on n{node} ({role}) after the failover: forwards={len(forwards)} copies={len(copies)} acks={len(acks)} lateral={len(lateral)}; burst {burst}"
-                if lateral: fails.append(Failure(f"secondary-fans-out:{cmd.split(' ')[0]}@{role}", where))
-                if len(forwards) > 1: fails.append(Failure(f"more-than-one-forward:{cmd.split(' ')[0]}@{role}", where))
-                if len(copies) > 1: fails.append(Failure(f"more-than-one-copy-per-secondary:{cmd.split(' ')[0]}@{'primary' if node == 2 else 'secondary'}", where))
-                if len(acks) > len(copies): fails.append(Failure(f"more-acks-than-copies:{cmd.split(' ')[0]}@{role}", where))
-        seen = set(); out = []
-        for f in fails:
-            if f.cls not in seen: seen.add(f.cls); out.append(f)
-        return out
+        return measure(net, rng, 2, (2, 3), cmds, (1,), "failover")
+    return fn
+
+def scenario_primary_change(cmds):
+    """3 live nodes; the primary role moves to a node every other node already knows (the oldest node, which joined a younger primary,
+    is forced to elect and wins): nobody leaves, every member table must end up with ONE primary; then every command on every node"""
+    def fn(net, rng):
+        pids = [200, 100, 300]
+        if not cluster.form_cluster(net, 3, rng, co=True, pids=pids): return [Failure("cluster-does-not-form", "3 nodes, coroutine mode")]
+        for i in (1, 2, 3): net.op(i, "SESS 1"); net.cmd(i, 1, "auth adm pw")
+        if not net.settle(rng): return [Failure("no-quiescence", "setup")]
+        from checks.c07 import roles
+        r = roles(net, [1, 2, 3])
+        old = next((i for i in (1, 2, 3) if r[i][0] == "Primary"), None)
+        if old is None: return [Failure("cluster-does-not-form", f"no primary after formation: {r}")]
+        net.cmd(old, 1, "create-db t tok")
+        if not net.settle(rng): return [Failure("no-quiescence", "setup")]
+        for i in (1, 2, 3): net.cmd(i, 1, "use-db t tok")
+        if not net.settle(rng): return [Failure("no-quiescence", "setup")]
+        # the oldest node (n2) is asked to elect: wherever the role is now, it ends with the oldest or stays; nobody leaves
+        net.cmd(2, 1, "debug force-election")
+        if not net.settle(rng): return [Failure("election-does-not-terminate:primary-change", f"parked {net.parked}")]
+        r = roles(net, [1, 2, 3])
+        prims = [i for i in (1, 2, 3) if r[i][0] == "Primary"]
+        if len(prims) != 1: return []          # C07's business
+        new = prims[0]
+        return measure(net, rng, new, (1, 2, 3), cmds, (), "primary-change")
     return fn
 
 FAILOVER_CMDS = ["set a 1", "remove a", "increment n", "resolve 7 t a 1 z", "snapshot false", "create-user u1 pw", "set-permissions u1 rw a*", "create-db d3 tk3", "set-safe a 0 x"]
@@ -94,6 +125,7 @@ def scenarios(tier):
         for j, ch in enumerate(chunks):
             S.append((f"k{k}-commands-{j}", scenario(k, ch, j)))
     S.append(("k3-after-failover", scenario_failover(FAILOVER_CMDS)))
+    S.append(("k3-after-primary-change", scenario_primary_change(FAILOVER_CMDS)))
     if tier != "quick": S.append(("k3-after-failover-b", scenario_failover(list(reversed(FAILOVER_CMDS)))))
     return S
 
